@@ -73,12 +73,25 @@ def gen_probe_project(rng, binp, tries=40, opts=None):
             # interpolations separated by nothing but blanks, blank-only component bodies
             for (ns, l), tree in p["files"].items():
                 tree["o"].append(["blanks", f"{{{{ a }}}} {{{{ b }}}}<b> </b>[{l}]<i>{{{{ a }}}}</i>  {{{{ b }}}} "])
+        if o.get("nested_comp_keys", True):
+            # a component nested in another one and used again afterwards / before, three levels deep, with a variable at every level
+            for (ns, l), tree in p["files"].items():
+                tree["o"].append(["nestcomp", f"<i><b>bold italic</b></i> and <b>bold</b> [{l}] <b><i>{{{{ a }}}}</i></b>"])
+                tree["o"].append(["nestcomp3", f"<u><i><b>{{{{ a }}}}</b> {{{{ b }}}}</i> <b>x</b></u> <i>[{l}]</i> <u>{{{{ a }}}}</u>"])
         if o.get("ordinal_key", True):
             # an ordinal and a cardinal plural with every form, in every locale (string and view back-ends must use the key's rule type)
             for (ns, l), tree in p["files"].items():
                 for f in ("one", "two", "few", "many", "other"):
                     tree["o"].append([f"nth_ordinal_{f}", f"O-{f}-{l}:{{{{ count }}}}"])
                     tree["o"].append([f"amount_{f}", f"C-{f}-{l}:{{{{ count }}}}"])
+        if o.get("shared_plurals", True):
+            # plural keys only the default locale translates: every other locale renders the default locale's forms (one generated match arm
+            # for all of them) with its OWN plural rules, whatever was rendered before in the same process
+            for (ns, l), tree in p["files"].items():
+                if l == p["default"]:
+                    for f in ("zero", "one", "two", "few", "many", "other"):
+                        tree["o"].append([f"sharedpl_{f}", f"S-{f}:{{{{ count }}}}"])
+                        tree["o"].append([f"sharednth_ordinal_{f}", f"<b>SO-{f}</b>:{{{{ count }}}}"])
         # formatted keys in every project: plain, inside a component, inside a plural, in a group; absent or null in some non-default
         # locales so that an inherited text is formatted for the locale being rendered
         if o.get("formatted_keys", True):
@@ -315,11 +328,11 @@ def build_probes(rng, p, res, oracle, per_key=3, flavours=("string", "display", 
                         comps_rs = []
                         for name, tag in comp_tags.items():
                             short = rust_ident(name[len("comp_"):])
-                            if fl == "view":
+                            if fl.endswith("view"):
                                 comps_rs.append(f'<{short}> = |children: ChildrenFn| view! {{ <span data-c="{tag}">{{children()}}</span> }}')
                             else:
                                 comps_rs.append(f'<{short}> = leptos_i18n::display::DisplayComp::new("span", &[("data-c", "{tag}")])')
-                        vargs = [f"{n} = move || {v}" if (is_count and fl == "view") else f"{n} = {v}" for n, v, is_count in args_rs]
+                        vargs = [f"{n} = move || {v}" if (is_count and fl.endswith("view")) else f"{n} = {v}" for n, v, is_count in args_rs]
                         allargs = ", ".join([loc_rs, key_rs] + vargs + comps_rs)
                         rest_args = ", ".join(vargs + comps_rs)
                         full = ([rust_ident(ns)] if ns is not None else []) + [rust_ident(k) for k in path]
@@ -350,6 +363,19 @@ def build_probes(rng, p, res, oracle, per_key=3, flavours=("string", "display", 
                             else:
                                 inner = ", ".join(["__i18n", key_rs] + vargs + comps_rs)
                                 expr = f"with_ctx({loc_rs}, |__i18n| {mac}({inner}).to_string())"
+                        elif fl in ("ctx_view", "ctxu_view", "late_view", "lateu_view"):
+                            # t! / tu! views through a context; the `late` ones are built while the context shows another locale and rendered
+                            # after it was set: a view shows the context's locale at the time it is rendered, like the t! view built next to it
+                            mac = "tu!" if "u_" in fl else "t!"
+                            inner = ", ".join(["__i18n", key_rs] + vargs + comps_rs)
+                            if fl.startswith("late"):
+                                others = [x for x in cfg["locales"] if x != l]
+                                if not others:
+                                    continue
+                                other_rs = "Locale::" + rust_ident(others[(a + len(path)) % len(others)])
+                                expr = f"with_ctx({other_rs}, |__i18n| {{ let __v = {mac}({inner}); __i18n.set_locale_untracked({loc_rs}); render(__v) }})"
+                            else:
+                                expr = f"with_ctx({loc_rs}, |__i18n| render({mac}({inner})))"
                         elif fl == "string" and a == per_key - 1 and len(plain_vars) >= 2:
                             # argument values that mention each other's names: `x = y, y = x` with locals x, y (the values are
                             # evaluated in the caller's scope, all of them before any is bound)
@@ -397,6 +423,19 @@ fn with_ctx<R>(l: Locale, f: impl FnOnce(leptos_i18n::I18nContext<Locale>) -> R)
     r
 }
 
+/// spawned tasks (the contexts' isomorphic effects) are never run: nothing happens concurrently with the probes, every probe reads a
+/// quiescent reactive system (a thread pool would run them on other threads, racing with the owners the probes create and drop)
+struct Quiet;
+impl any_spawner::CustomExecutor for Quiet {
+    fn spawn(&self, fut: any_spawner::PinnedFuture<()>) {
+        std::mem::forget(fut);
+    }
+    fn spawn_local(&self, fut: any_spawner::PinnedLocalFuture<()>) {
+        std::mem::forget(fut);
+    }
+    fn poll_local(&self) {}
+}
+
 fn emit(id: usize, out: String) {
     println!("{}\\t{}", id, out.chars().map(|c| if c == '\\n' { "\\\\n".to_string() } else if c == '\\\\' { "\\\\\\\\".to_string() } else { c.to_string() }).collect::<String>());
 }
@@ -404,7 +443,7 @@ fn emit(id: usize, out: String) {
 fn main() {
     let owner = Owner::new_root(None);
     owner.set();
-    let _ = any_spawner::Executor::init_futures_executor();
+    let _ = any_spawner::Executor::init_custom_executor(Quiet);
 %s
 }
 '''
@@ -430,6 +469,100 @@ def write_crate(dirp, q, probes, features=None):
     with open(os.path.join(dirp, "src", "main.rs"), "w") as f:
         f.write(MAIN_RS % body)
     shutil.copy(os.path.join(REPO, "Cargo.lock"), os.path.join(dirp, "Cargo.lock"))
+
+
+class _Obj(list):
+    """a JSON object as its list of (key, value) pairs, in file order"""
+
+
+def _emit_pairs(j):
+    if isinstance(j, _Obj):
+        return "{" + ", ".join(json.dumps(k, ensure_ascii=False) + ": " + _emit_pairs(v) for k, v in j) + "}"
+    if isinstance(j, list):
+        return "[" + ", ".join(_emit_pairs(x) for x in j) + "]"
+    return json.dumps(j, ensure_ascii=False)
+
+
+def _error_signature(err):
+    m = re.search(r"^error(\[E\d+\])?: (.*)$", err, flags=re.M)
+    if not m:
+        return None
+    return m.group(1) or m.group(2)[:60]
+
+
+def explain_compile_failure(ctx, dirp, q, probes, err, sig_prefix, budget=18):
+    """a probe crate that does not compile: find the input that is to blame.  (1) the error is located in a probe expression: that
+    accessor call is the failing input; (2) the error is inside the `load_locales!` expansion: delta-debug the top-level keys of the
+    translation files (the same keys removed from every locale) down to a small set that still fails with the same rustc error.
+    Returns True when a concrete failing input was reported."""
+    header = MAIN_RS.split("%s")[0].count("\n")
+    for ln in [int(x) for x in re.findall(r"--> src/main\.rs:(\d+):", err)]:
+        idx = ln - 1 - header
+        if 0 <= idx < len(probes):
+            pr = probes[idx]
+            msg = err[max(0, err.find("error")):][:900]
+            report_violation(ctx, sig_prefix + ":accessor-does-not-compile", {
+                "probe": pr["expr"], "locale": pr.get("locale"), "key_path": pr.get("path"), "implementation": msg,
+                "expected_by_spec": "supplying exactly the key's arguments compiles", "cargo_toml": q["cargo_toml"], "files": q["files"],
+                "harness": "probe crate (load_locales! compiled by rustc)"})
+            return True
+    sig = _error_signature(err)
+    if sig is None:
+        return False
+    try:
+        trees = [(rel, json.loads(text, object_pairs_hook=_Obj)) for rel, text in q["files"]]
+    except ValueError:
+        return False
+    keys = []
+    for _, t in trees:
+        if isinstance(t, _Obj):
+            for k, _v in t:
+                if k not in keys:
+                    keys.append(k)
+    tries = [0]
+
+    def files_for(keep):
+        return [[rel, _emit_pairs(_Obj([kv for kv in t if kv[0] in keep])) if isinstance(t, _Obj) else _emit_pairs(t)] for rel, t in trees]
+
+    def fails(keep):
+        tries[0] += 1
+        write_crate(dirp, dict(q, files=files_for(keep)), [])
+        rc, out, e = run(["cargo", "check", "--offline", "--target-dir", PROBE_TARGET], cwd=dirp, timeout=1800)
+        return rc != 0 and _error_signature(e) == sig, e
+    ok, e0 = fails(set(keys))
+    if not ok:
+        return False
+    cur, n, last_err = list(keys), 2, e0
+    while len(cur) > 1 and tries[0] < budget:
+        size = max(1, len(cur) // n)
+        chunks = [cur[i:i + size] for i in range(0, len(cur), size)]
+        reduced = False
+        for c in chunks:                      # a single chunk that still fails
+            if tries[0] >= budget:
+                break
+            ok, e = fails(set(c))
+            if ok:
+                cur, n, reduced, last_err = c, 2, True, e
+                break
+        if not reduced:
+            for c in chunks:                  # a complement that still fails
+                if tries[0] >= budget or len(chunks) <= 2:
+                    break
+                rest = [k for k in cur if k not in c]
+                ok, e = fails(set(rest))
+                if ok:
+                    cur, n, reduced, last_err = rest, max(n - 1, 2), True, e
+                    break
+        if not reduced:
+            if n >= len(cur):
+                break
+            n = min(len(cur), n * 2)
+    msg = last_err[max(0, last_err.find("error")):][:900]
+    report_violation(ctx, sig_prefix + ":generated-code-does-not-compile", {
+        "keys": cur, "implementation": msg, "expected_by_spec": "the module generated for translations the parser accepts compiles",
+        "cargo_toml": q["cargo_toml"], "files": files_for(set(cur)), "rustc_error": sig, "compiles_tried": tries[0],
+        "harness": "probe crate (load_locales! compiled by rustc), keys reduced by delta debugging"})
+    return True
 
 
 def normalise_view(s):
@@ -465,11 +598,24 @@ def run_render_probe(ctx, rng, n_crates=1, flavours=("string", "display", "view"
         dirp = os.path.join(WORK, f"probe_{ctx.pid}_{c}")
         write_crate(dirp, q, probes)
         rc, out, err = run_crate(ctx, dirp)
+        if rc != 0 and "could not compile" not in err and "panicked at" in err:
+            # compiled, then one probe expression panicked: that expression is the failing input
+            done = {int(l.partition("\t")[0]) for l in out.split("\n") if l.partition("\t")[0].isdigit()}
+            first = next((pr for pr in probes if pr["id"] not in done), None)
+            msg = err[err.index("panicked at"):][:600]
+            report_violation(ctx, sig_prefix + ":accessor-panics", {"probe": first and first["expr"], "locale": first and first["locale"], "key_path": first and first["path"],
+                                                                   "implementation": msg, "expected_by_spec": first and first["expected"],
+                                                                   "cargo_toml": q["cargo_toml"], "files": q["files"], "harness": "probe crate (load_locales! compiled by rustc), run"})
+            shutil.rmtree(dirp, ignore_errors=True)
+            continue
         if rc != 0:
             errs = "\n".join(l for l in err.split("\n") if l.startswith("error"))[:1500]
             # a probe crate that does not compile: the generated code / argument sets are not what the model says
-            ctx.broken.append({"kind": "correspondence", "name": "X/probe crate does not compile", "detail": {"errors": errs or err[-1500:], "files": q["files"]}})
             ctx.count("probe_crate_compile_failed")
+            if explain_compile_failure(ctx, dirp, q, probes, err, sig_prefix):
+                shutil.rmtree(dirp, ignore_errors=True)
+                continue
+            ctx.broken.append({"kind": "correspondence", "name": "X/probe crate does not compile", "detail": {"errors": errs or err[-1500:], "files": q["files"]}})
             continue
         got = {}
         for line in out.split("\n"):
@@ -488,10 +634,10 @@ def run_render_probe(ctx, rng, n_crates=1, flavours=("string", "display", "view"
             if exp is None:
                 # formatted values: ICU's text is not recomputed here; every flavour must give the same text (below)
                 ctx.count("probe:formatted")
-                groups.setdefault(pr["group"], {})[pr["flavour"]] = normalise_view(o) if pr["flavour"] == "view" else o
+                groups.setdefault(pr["group"], {})[pr["flavour"]] = normalise_view(o) if pr["flavour"].endswith("view") else o
                 ctx.seen({"expr": pr["expr"], "files": q["files"][0][1][:200]}, nontrivial=True)
                 continue
-            if pr["flavour"] == "view":
+            if pr["flavour"].endswith("view"):
                 # leptos renders an empty text node as a single space during SSR: compare modulo U+0020
                 o = normalise_view(o).replace(" ", "")
                 exp = exp.replace(" ", "")
@@ -506,7 +652,7 @@ def run_render_probe(ctx, rng, n_crates=1, flavours=("string", "display", "view"
         formatted_groups = {pr["group"] for pr in probes if pr.get("formatted")}
         for g, d in groups.items():
             if check_groups or g in formatted_groups:
-                exact = {k: v for k, v in d.items() if k != "view"}
+                exact = {k: v for k, v in d.items() if not k.endswith("view")}
                 if len(set(exact.values())) > 1 or len({v.replace(" ", "") for v in d.values()}) > 1:
                     report_violation(ctx, sig_prefix + ":flavours-disagree", {"key": str(g), "outputs": d, "files": q["files"]})
                     break
